@@ -4,7 +4,7 @@
     loop, and the DER codec of [Model.Der] against encoding/asn1.  The
     field-by-field comparison of the two certificate parsers is done on the Go
     side of the harness (three-way differential, see props/C16.json). *)
-From Verif Require Import Lib.Base Lib.Bytes Model.Der Model.X509Env Model.ModHex Model.Pem.
+From Verif Require Import Lib.Base Lib.Bytes Model.Der Model.X509Env Model.X509Fields Model.ModHex Model.Pem.
 Local Open Scope N_scope.
 
 (** ** ModHex: the property's own sentence *)
@@ -167,6 +167,39 @@ Definition cert_agrees (der : bytes) (e : envelope) (o : cert_obs) : bool :=
   bytes_eqb (e_key_bits e) (0 :: o_key o) &&
   (ext_count e =? o_next o).
 
+(** ** Certificate fields: what yubiattest.ParseCertificate reported below the envelope *)
+Record fields_obs := mkFieldsObs {
+  fo_version : Z;
+  fo_serial : Z;
+  fo_not_before : Z;                         (* NotBefore.Unix() *)
+  fo_not_after : Z;
+  fo_issuer : list (list N * option bytes);  (* Issuer.Names: type arcs, the value when it is a string *)
+  fo_subject : list (list N * option bytes);
+  fo_exts : list (list N * bool * bytes) }.  (* Extensions: Id arcs, Critical, Value *)
+
+Definition atv_agrees (a : atv) (o : list N * option bytes) : bool :=
+  let '(oid, tag, v) := a in
+  bytes_eqb oid (enc_oid (fst o)) &&
+  (if plain_string_tag tag then match snd o with Some t => bytes_eqb v t | None => false end else true).
+
+Fixpoint forallb2 {A B} (f : A -> B -> bool) (l1 : list A) (l2 : list B) : bool :=
+  match l1, l2 with
+  | [], [] => true
+  | x :: r1, y :: r2 => f x y && forallb2 f r1 r2
+  | _, _ => false
+  end.
+
+Definition ext_agrees (e : X509Fields.ext) (o : list N * bool * bytes) : bool :=
+  let '(oid, crit, v) := e in
+  let '(arcs, ocrit, ov) := o in
+  bytes_eqb oid (enc_oid arcs) && Bool.eqb crit ocrit && bytes_eqb v ov.
+
+Definition fields_agree (f : fields) (o : fields_obs) : bool :=
+  (f_version f =? fo_version o)%Z && (f_serial f =? fo_serial o)%Z &&
+  (f_not_before f =? fo_not_before o)%Z && (f_not_after f =? fo_not_after o)%Z &&
+  forallb2 atv_agrees (f_issuer f) (fo_issuer o) && forallb2 atv_agrees (f_subject f) (fo_subject o) &&
+  forallb2 ext_agrees (f_exts f) (fo_exts o).
+
 (** ** Cases *)
 Inductive case :=
 | CCert (der : bytes) (o : option cert_obs)
@@ -179,8 +212,16 @@ Inductive case :=
     (* asn1.Marshal of the tree built from asn1.RawValue *)
 | CDerParse (bs : bytes) (go : option (N * bytes * bytes))
     (* asn1.Unmarshal into a RawValue: identifier octet, content, rest *)
-| COid (arcs : list N) (enc : bytes).
+| COid (arcs : list N) (enc : bytes)
     (* content octets of asn1.Marshal(asn1.ObjectIdentifier) *)
+| CFields (der : bytes) (o : fields_obs)
+    (* an accepted certificate: version, serial, validity, names, extension list *)
+| CInt (z : Z) (enc : bytes)
+    (* content octets of asn1.Marshal of a big.Int *)
+| CIntParse (content : bytes) (v : option Z)
+    (* asn1.Unmarshal of an INTEGER with these content octets into a big.Int *)
+| CTime (tag : N) (content : bytes) (unix : option Z).
+    (* asn1.Unmarshal of a UTCTime (23) / GeneralizedTime (24) into time.Time: Unix() *)
 
 Definition tlv_eqb (a b : option (N * bytes * bytes)) : bool :=
   match a, b with
@@ -212,6 +253,26 @@ Definition check (c : case) : N :=
            then 0 else 1
   | CDerParse bs go => if tlv_eqb (parse_tlv bs) go then 0 else 1
   | COid arcs enc => if bytes_eqb (enc_oid arcs) enc then 0 else 1
+  | CFields der o =>
+      match cert_parse der with
+      | Some e => match cert_fields e with
+                  | Some f => if fields_agree f o then 0 else 1
+                  | None => 1
+                  end
+      | None => 1
+      end
+  | CInt z enc => if bytes_eqb (enc_int z) enc && (int_value enc =? z)%Z && int_ok enc then 0 else 1
+  | CIntParse c v =>
+      match v with
+      | Some z => if int_ok c && (int_value c =? z)%Z then 0 else 1
+      | None => if int_ok c then 1 else 0
+      end
+  | CTime tag c u =>
+      match parse_time (DPrim tag c), u with
+      | Some a, Some b => if (a =? b)%Z then 0 else 1
+      | None, None => 0
+      | _, _ => 1
+      end
   end.
 
 (** Model branch reached. ModHex: 30 3-byte serial, 31 4-byte serial, 32 short
@@ -248,4 +309,15 @@ Definition classify (c : case) : N :=
   | CDer (DCons _ _) _ => 51
   | CDerParse bs _ => match parse_tlv bs with Some _ => 52 | None => 53 end
   | COid _ _ => 54
+  | CFields der _ =>
+      match cert_parse der with
+      | Some e => match cert_fields e with
+                  | Some f => match f_exts f with [] => 70 | _ => 71 end
+                  | None => 72
+                  end
+      | None => 72
+      end
+  | CInt z _ => if (z <? 0)%Z then 73 else 74
+  | CIntParse c _ => if int_ok c then 75 else 76
+  | CTime tag c _ => match parse_time (DPrim tag c) with Some _ => if tag =? 23 then 77 else 78 | None => 79 end
   end.
